@@ -457,11 +457,11 @@ package hermes
 //@   ensures resistance: g.RSTOM >= 0
 //@   modifies g.RSTOM, g.SUND, g.RADSUM
 
-// Haude/Heger factor reader (text layer): the factors it stores are assumed non-negative (parameter file domain).
+// Haude/Heger factor reader (text layer): the factors it stores are assumed non-negative (parameter file domain,
+// `ensures-assumed`); its frame - it writes the two factor tables and nothing else - is verified on the real body.
 //@ func verdun
 //@   serves C08
-//@   trusted
-//@   ensures factors: forall(m, 0, 12, g.FKF[m] >= 0 && g.FKU[m] >= 0)
+//@   ensures-assumed factors: forall(m, 0, 12, g.FKF[m] >= 0 && g.FKU[m] >= 0)
 //@   modifies g.FKF, g.FKU
 
 // Telescoping: the per-layer law of Water/post:balance sums to the profile law of the statement
